@@ -56,6 +56,9 @@ type OptProfile struct {
 	Parallel         int  // 0 sequential, 1 parallel, 2 drawn
 	ActivationSwarm  bool
 	CompatMethodBoth bool
+	// IntegralCompat: a share of the worlds uses whole-number coefficients (no weight term) and a whole-number
+	// threshold, so that distances equal to the threshold occur and the strictness of "closer than" is exercised
+	IntegralCompat bool
 }
 
 var allScalarActivations = []neatmath.NodeActivationType{
@@ -199,6 +202,17 @@ func DrawOptions(t *Tape, p OptProfile) *neat.Options {
 		o.NodeActivatorsProb = []float64{1.0}
 	}
 	o.LogLevel = "error"
+	if p.IntegralCompat && t.Chance("integralCompat", 1, 3) {
+		switch t.Draw("integralCompat.set", 3) {
+		case 0:
+			o.DisjointCoeff, o.ExcessCoeff, o.MutdiffCoeff = 1, 1, 0
+		case 1:
+			o.DisjointCoeff, o.ExcessCoeff, o.MutdiffCoeff = 2, 1, 0
+		case 2:
+			o.DisjointCoeff, o.ExcessCoeff, o.MutdiffCoeff = 1, 2, 0
+		}
+		o.CompatThreshold = float64(1 + t.Draw("integralCompat.thr", 4))
+	}
 	return o
 }
 
